@@ -2977,7 +2977,11 @@ impl KotoVm {
                     Ok(false)
                 }
             }
-            unexpected => unexpected_type("a value that supports '.' access", unexpected),
+            unexpected if error_if_not_found => {
+                unexpected_type("a value that supports '.' access", unexpected)
+            }
+            // Values that don't support '.' access don't contain the key
+            _ => Ok(false),
         }
     }
 
